@@ -154,8 +154,10 @@ META.update({
         "text": "Proof: every URI the model accepts has a non-empty host, port 0..65535, UDP for stun / TCP for stuns, the "
                 "?transport= value or the scheme default for turn/turns (parseProto_spec); DialURI's switch is modelled "
                 "as a decision table: exact transport for the six producible pairs and never plaintext for secure "
-                "schemes over all 5x3 hand-made values. Round trip: decided by the implementation-side predicate on "
-                "exhaustive + grammar inputs (theorem not proved; false for one recorded host shape, F8). DialURI is "
+                "schemes over all 5x3 hand-made values. Round trip: proved (roundtrip_regname) for every URI with a "
+                "non-empty registered-name / IPv4 host, any port 0..65535, all schemes and transports; the general "
+                "statement is false for one recorded host shape (F8, refuted in Lean); bracketed / zone / escaped "
+                "hosts are decided by the implementation-side predicate on exhaustive + grammar inputs. DialURI is "
                 "observed through an injected recording network.",
         "note": PROOF_NOTE + "DTLS with a host NAME cannot be exercised offline (DialURI resolves it first). tls/dtls "
                 "libraries are not modelled beyond being invoked.",
